@@ -18,14 +18,17 @@ XSI == "xsi-uri"
 NONE == "<none>"
 Styles == {"prefix", "default", "none"}
 Prefixes == {"xtce", "foo"}
-Faults == {"none", "malformed", "unsupported", "badprefix", "latefail"}   \* latefail: an error in the container pass, after element lookups by name
+Faults == {"none", "malformed", "unsupported", "badprefix", "latefail", "noprefix"}
+\* latefail: an error in the container pass, after element lookups by name; noprefix: the caller passes no prefix (a fault only for a
+\* document whose XTCE elements carry one: its lookups find nothing; the other conventions are loaded that way anyway)
 Requests == [doc : Docs, style : Styles, prefix : Prefixes, xsi : BOOLEAN, fault : Faults]
 
 VARIABLES gp, gm, phase, cur, last, n
 vars == <<gp, gm, phase, cur, last, n>>
 
 \* what the caller passes as xtce_ns_prefix, and the root element's namespace map
-PrefixArg(r) == IF r.fault = "badprefix" THEN "bogus" ELSE IF r.style = "prefix" THEN r.prefix ELSE NONE
+PrefixArg(r) == IF r.fault = "badprefix" THEN "bogus" ELSE IF r.fault = "noprefix" THEN NONE ELSE IF r.style = "prefix" THEN r.prefix ELSE NONE
+Faulty(r) == r.fault # "none" /\ ~(r.fault = "noprefix" /\ r.style # "prefix")
 NsmapOf(r) == (CASE r.style = "prefix" -> {<<r.prefix, URI>>} [] r.style = "default" -> {<<NONE, URI>>} [] r.style = "none" -> {})
               \cup (IF r.xsi THEN {<<"xsi", XSI>>} ELSE {})
 Dom(m) == {p[1] : p \in m}
@@ -64,6 +67,6 @@ Spec == Init /\ [][Next]_vars
 \* C16: when the lookups run, the global state is the one derived from the document being loaded ...
 LookupSeesOwnDoc == phase = "lookups" => (gp = PrefixArg(cur) /\ gm = NsmapOf(cur))
 \* ... hence a well-formed request always loads, whatever happened before, and yields its own document
-HistoryIndependent == [][(phase = "lookups" /\ cur.fault = "none") => (phase' = "idle" /\ last' = [k |-> "loaded", doc |-> cur.doc])]_vars
-FaultsFail == [][(phase \in {"parse", "lookups"} /\ cur.fault # "none" /\ phase' = "idle") => last'.k = "failed"]_vars
+HistoryIndependent == [][(phase = "lookups" /\ ~Faulty(cur)) => (phase' = "idle" /\ last' = [k |-> "loaded", doc |-> cur.doc])]_vars
+FaultsFail == [][(phase \in {"parse", "lookups"} /\ Faulty(cur) /\ phase' = "idle") => last'.k = "failed"]_vars
 =============================================================================
